@@ -46,3 +46,19 @@ package hex
 
 //@ lemma c20-equal [C20]: forall c *constraint, v1, v2 *Version :: trigger(c.matches(v1), c.matches(v2)) && c != nil && c.version != nil && v1 != nil && v2 != nil && (c.operator == "=" || c.operator == "<" || c.operator == "<=" || c.operator == ">" || c.operator == ">=") && v1.Compare(v2) == 0 ==> c.matches(v1) == c.matches(v2)
 //@ lemma c20-convex [C20]: forall c *constraint, a, b, d *Version :: trigger(c.matches(a), c.matches(d), a.Compare(b), b.Compare(d)) && c != nil && c.version != nil && a != nil && b != nil && d != nil && (c.operator == "=" || c.operator == "<" || c.operator == "<=" || c.operator == ">" || c.operator == ">=") && a.Compare(b) <= 0 && b.Compare(d) <= 0 && c.matches(a) && c.matches(d) ==> c.matches(b)
+
+// ---- helpers: the capture slices handed over by NewVersion have the length the regular expression fixes
+//@ func parseSemanticVersion
+//@   requires len(matches) == 6
+//@   ensures xor: (result0 != nil) == (result1 == nil)
+
+//@ func parsePartialVersion
+//@   requires len(matches) == 3
+//@   ensures xor: (result0 != nil) == (result1 == nil)
+
+//@ func parseConstraint
+//@   ensures xor: (result0 != nil) == (result1 == nil)
+//@   ensures bound: result1 == nil ==> result0.version != nil
+
+//@ func expandPessimisticConstraint
+//@   requires c.version != nil
